@@ -84,7 +84,9 @@ def program(disp_faults: bool = True, body_raises: bool = True, max_leaves: int 
     )
     releases = st.lists(st.tuples(st.sampled_from([0.5, 1, 2, 4, 6]), st.integers(0, 3)).map(list), max_size=4)
     pre = st.lists(spawn, max_size=1) if top_spawn else st.just([])
-    return st.builds(lambda p, o, r: {"body": [*p, o, {"k": "probe", "lookups": [], "fp": True}], "releases": r}, pre, outer, releases)
+    # a spawn AFTER the outermost scope has been left: outside any scope again, it must give a detached running task
+    post = st.lists(st.builds(lambda b: {"k": "spawn", "via": "ctx", "body": b}, st.lists(sleep, min_size=1, max_size=2)), max_size=1) if top_spawn else st.just([])
+    return st.builds(lambda p, o, r, q: {"body": [*p, o, {"k": "probe", "lookups": [], "fp": True}, *q], "releases": r}, pre, outer, releases, post)
 
 
 def all_gates(ops, acc=None):
